@@ -25,6 +25,12 @@ CHECKS = {
    note="Trusted: the twin is built by re-running the prefix in a second fresh context; names first introduced by a rejected text are excluded from the comparison as the property says; the reference lexer supplies token boundaries; prefix, Q and probes contain no runtime fault so the damaged stream is the only fault.",
    technique="deterministic simulation: stream-fault enumeration (truncation/corruption at token boundaries) at the reader seam, twin-context differential + probe programs, ASan/UBSan monitor, replayable minimised plans",
    design="DESIGN.md section 4 (C11)"),
+ "C16": dict(
+   level="exploration",
+   text="The module registry and the grant list are process-wide while trust is per context, so the outcome of a compile depends on the history of the whole process. A plan is an interleaving of steps by the actors Host (grant, clear grants, flip trust), a trusted context, two untrusted contexts and clones of them over the modules vf, vg (verification plugin under two names) and the real csv: import by name / by path, include, constructor at top level, inside a function body, after a typed declaration, in other letter case, calls of functions compiled earlier, clone. Every compile must be accepted iff a 3-variable reference model (granted set, loaded set, trusted flag) says so, and a creation monitor inside the plugin flags any object created in an untrusted context family that never legitimately compiled a constructor of that module. The finite core of the property's quantifier (576 combinations) is enumerated by the first run numbers of every run; longer histories are seeded samples.",
+   note="Trusted: the reference model (15 lines) encodes the property statement; the host never stores objects into untrusted contexts itself; bloc_deinit_plugins only after everything is released. The dynamic loader runs for real.",
+   technique="deterministic simulation: seeded multi-actor histories over process-wide singletons, reference-model oracle + in-plugin creation monitor, finite core enumerated",
+   design="DESIGN.md section 4 (C16)"),
 }
 
 NOT_APPLICABLE = {
